@@ -61,6 +61,8 @@ type CallHook struct {
 }
 
 type FuncContract struct {
+	CallsOnly  []string // closed-world frame: the only callees the function may call (substrings of callee keys)
+	CallsTags  []string
 	Hooks      []*CallHook
 	File       string
 	PkgPath    string // package the contract file belongs to ("" for speclib)
@@ -115,7 +117,7 @@ type ContractFile struct {
 var clauseKW = map[string]bool{"func": true, "requires": true, "ensures": true, "assigns": true, "loop": true,
 	"invariant": true, "modifies": true, "unroll": true, "let": true, "checks": true, "trusted": true, "pure": true,
 	"implements": true, "ghost": true, "define": true, "axiom": true, "lemma": true, "calls": true, "assert": true,
-	"assume": true, "import": true, "noinline": true, "decreases": true, "atcall": true}
+	"assume": true, "import": true, "noinline": true, "decreases": true, "atcall": true, "callsonly": true}
 
 var tagRe = regexp.MustCompile(`^((?:@C[0-9]+\s*)+):?\s*`)
 
@@ -385,6 +387,20 @@ func parseContractFile(path, pkgPath string, isSpeclib bool) (*ContractFile, err
 					return nil, fmt.Errorf("%s: atcall body must be snap or assert", where)
 				}
 				cur.Hooks = append(cur.Hooks, h)
+			case "callsonly":
+				text := l.text
+				if m := tagRe.FindStringSubmatch(text); m != nil {
+					for _, tg := range strings.Fields(m[1]) {
+						cur.CallsTags = append(cur.CallsTags, strings.TrimPrefix(tg, "@"))
+						cur.Tags[strings.TrimPrefix(tg, "@")] = true
+					}
+					text = text[len(m[0]):]
+				}
+				for _, f := range strings.Split(text, ",") {
+					if f = strings.TrimSpace(f); f != "" {
+						cur.CallsOnly = append(cur.CallsOnly, f)
+					}
+				}
 			case "checks":
 				for _, f := range strings.Fields(strings.ReplaceAll(l.text, ",", " ")) {
 					cur.Checks[f] = true
